@@ -340,8 +340,11 @@ def single_reject_pass(ctx):
                 out.append(buf.getvalue())
                 r.remove(x)
             return out
-        before = saved(a)
-        default = a.eGet(f)
+        # every other case: what a never-set feature reads and writes is learnt from a *twin* object, so that the refused
+        # write is the very first thing that ever touches the feature on `a`
+        first_touch = h % 2 == 1
+        before = saved(bystander if first_touch else a)
+        default = (bystander if first_touch else a).eGet(f)
         raised = None
         try:
             if how == 'attr':
@@ -375,7 +378,7 @@ def single_reject_pass(ctx):
                 problems.append('a save writes something else than before the refused write')
         if problems:
             ctx.violate({'clause': 'default-after-rejected-write', 'trigger': 'none'},
-                        f'never-set {fname} after a refused write ({how}, {raised}): ' + '; '.join(problems),
+                        f'never-set {fname} after a refused write ({how}, {raised}{", the first access to the feature" if first_touch else ""}): ' + '; '.join(problems),
                         {'single_reject': True, 'case': h, 'feature': fname, 'how': how})
             return
 
